@@ -118,6 +118,13 @@ def rand_pair(rng):
         b = [(x + 3000.0, y) for x, y in b]   # far apart
     elif r < 0.3 and n == m:
         b = list(a)             # coincident
+    elif r < 0.4:
+        # nearly touching: a copy of (a stretch of) the first operand displaced by less than 1e-3 — disjoint, distance tiny but not 0
+        g = rng.choice([1e-4, 3e-4, 5e-4, 9e-4])
+        ang = rng.uniform(0, 2 * math.pi)
+        b = [(x + g * math.cos(ang), y + g * math.sin(ang)) for x, y in a]
+        if rng.random() < 0.5 and len(a) == 2:
+            b = [(b[0][0], b[0][1]), (b[1][0] + 7.0, b[1][1] + 3.0)]
     return a, b
 
 
